@@ -59,8 +59,8 @@ def batches(ctx):
     ]
 
 
-OPS = ["glyfshift", "glyfscale", "compbase", "compnew", "cffshift", "os2stale", "hmtx", "vmtx", "headflags", "cmap", "name", "os2", "deltable", "opaque", "subset", "scale", "reorder", "instantiate", "cffwidth"]
-SMALL_OPS = ["glyfshift", "glyfscale", "compbase", "compnew", "cffshift", "os2stale", "hmtx", "vmtx", "headflags", "cmap", "name", "os2", "opaque"]
+OPS = ["glyfshift", "glyfflat", "glyfscale", "compbase", "compnew", "cffshift", "os2stale", "hmtx", "vmtx", "headflags", "cmap", "name", "os2", "deltable", "opaque", "subset", "scale", "reorder", "instantiate", "cffwidth"]
+SMALL_OPS = ["glyfshift", "glyfflat", "glyfscale", "compbase", "compnew", "cffshift", "os2stale", "hmtx", "vmtx", "headflags", "cmap", "name", "os2", "opaque"]
 CUBIC = "bin:ttLib/data/dot-cubic.ttf"
 VERTICAL = ["ttx:" + p for p in ("cffLib/data/TestSparseCFF2VF.ttx", "subset/data/NotdefWidthCID-Regular.ttx", "subset/data/NotoSansCJKjp-Regular.subset.ttx", "subset/data/TestCID-Regular.ttx", "subset/data/harfbuzz_repacker.ttx", "ttLib/tables/data/NotoColorEmoji.subset.index_format_3.ttx", "ttLib/tables/data/_v_h_e_a_recalc_OTF.ttx", "ttLib/tables/data/_v_h_e_a_recalc_TTF.ttx")]
 
